@@ -184,6 +184,37 @@ def exact_bits(w, e):
         return None
     return struct.unpack("<Q", struct.pack("<d", x))[0]
 
+def rounding_spec_abs(ctx, raw, w, e, wlo, whi):
+    """the same statement without the normalised significand, for tiny values: candidates for the
+    exponent field come from the range of w (here a few values, incl. 0 = subnormal / zero)"""
+    from fractions import Fraction
+    X, M = divmod_pow2(ctx, raw, 52)
+    def xfield(v):          # exponent field of the double just below/at v (0 for subnormals)
+        if v < Fraction(1, 2 ** 1022):
+            return 0
+        k = floor_log2_frac(v.numerator, v.denominator)
+        return k + 1023
+    x_lo = xfield(Fraction(wlo) * Fraction(10) ** e)
+    x_hi = xfield(Fraction(whi) * Fraction(10) ** e) + 1
+    alts = []
+    p10 = 10 ** (-e)
+    for x in range(max(0, x_lo - 1), x_hi + 1):
+        # f = m * 2^d with (m, d) = (M, -1074) for x == 0 and (2^52 + M, x - 1075) otherwise; compare with w / 10^|e|
+        m = M if x == 0 else add(M, 1 << 52)
+        d = -1074 if x == 0 else x - 1075
+        # (2m-1) * 2^(d-1) <= w / p10 <= (2m+1) * 2^(d-1)   <=>   (2m-1) * p10 <= w * 2^(1-d) <= (2m+1) * p10      (d <= 0 here)
+        V = mul(1 << (1 - d), w)
+        up = mul(p10, add(mul(2, m), 1))
+        dn1 = mul(p10, sub(mul(2, m), 1))
+        dn2 = mul(p10, sub(mul(4, m), 1))       # below a power of two the gap is half: compare 2V with (4m-1) p10
+        even = "(= (mod %s 2) 0)" % sx(M)
+        upper = "(or (< {V} {u}) (and (= {V} {u}) {ev}))".format(V=sx(V), u=sx(up), ev=even)
+        lower_n = "(or (> {V} {l}) (and (= {V} {l}) {ev}))".format(V=sx(V), l=sx(dn1), ev=even)
+        lower_p = "(>= (* 2 {V}) {l})".format(V=sx(V), l=sx(dn2))
+        lower = "(ite (and (= %s 0) %s) %s %s)" % (sx(M), "true" if x > 1 else "false", lower_p, lower_n)
+        alts.append("(and (= %s %d) %s %s)" % (sx(X), x, upper, lower))
+    return "(and (<= %s 2046) (or %s))" % (sx(X), " ".join(alts))
+
 def unwrap_float(v):
     """Ok(Float(F)) -> (neg?, raw) | 'opaque' | None"""
     if isinstance(v, Adt) and v.ty == "Result" and v.variant == "Ok":
@@ -263,13 +294,27 @@ def check_exponents(job):
     res = {"validation": {"runs": 0, "reached_interpreted": 0, "mismatches": []}, "violations": [], "unknown": [], "errors": [], "decided_returns": 0, "opaque_returns": 0, "err_returns": 0, "paths": 0,
            "oblig_unsat": 0, "oblig_unknown": {}, "oblig_sat": [], "queries": 0, "solver_s": 0.0, "fast_exps": [], "cache_hits": 0,
            "opaque_calls": set(), "interpreted": set(), "unsupported": [], "unrealisable": [], "unsupported_paths": {}}
+    TINY = -308          # below this the result can be subnormal: the significand range is split by leading_zeros
+    work = []
     for e in exps:
+        if lemire_range is not None and e <= TINY and e >= lemire_range[0]:
+            for k in range(0, 64):
+                wlo, whi = max(1, 1 << (63 - k)), min(10 ** 19 - 1, (1 << (64 - k)) - 1)
+                if wlo <= whi:
+                    work.append((e, k, wlo, whi))
+        else:
+            work.append((e, None, 1, 10 ** 19 - 1))
+    for e, pin_k, wlo, whi in work:
+        if len(res["violations"]) >= 3 or any(v["exp10"] == e for v in res["violations"]):
+            continue        # enough counterexamples to replay; satisfiable queries are the slow ones
         use_lemire = lemire_range is not None and lemire_range[0] <= e <= lemire_range[1]
         ip = Interp(fns, consts, statics, interpret + (LEMIRE if use_lemire else []))
         ip.impl_consts = f64c
         ip.tolerate_unsupported = True
         ctx = Ctx()
-        w = ctx.fresh("w", 1, 10 ** 19 - 1)
+        w = ctx.fresh("w", wlo, whi)
+        if pin_k is not None:
+            ctx.pin_lz = (w.s, pin_k, 64)
         neg = ctx.fresh("neg", None, None, "Bool")
         trunc = ctx.fresh("trunc", None, None, "Bool")
         ctx.cons.append("(not %s)" % trunc.s)      # the claim is about significands with no digit dropped
@@ -286,6 +331,8 @@ def check_exponents(job):
         had_fast = False
         proved = set()
         for c, rv in outs:
+            if any(v["exp10"] == e for v in res["violations"]):
+                break
             u = unwrap_float(rv)
             if u == "opaque":
                 res["opaque_returns"] += 1
@@ -337,7 +384,7 @@ def check_exponents(job):
                 # the magnitude: first under the callee's constraints only (shared by all the
                 # routes that reach the callee), then, if that is not unsat, under the whole path
                 c2 = c.fork()
-                spec = "(and (not %s) (not %s))" % (trunc.s, rounding_spec(c2, raw, w, e))
+                spec = "(and (not %s) (not %s))" % (trunc.s, rounding_spec(c2, raw, w, e) if pin_k is None else rounding_spec_abs(c2, raw, w, e, wlo, whi))
                 verdict = None
                 if c2.mark is not None:
                     key = canon(c2.script([spec], only_callee=True))
@@ -359,10 +406,12 @@ def check_exponents(job):
                         res["unknown"].append((e, "rounding"))
                     elif r != "unsat":
                         res["errors"].append((e, r))
-        if had_fast:
+        if had_fast and e not in res["fast_exps"]:
             res["fast_exps"].append(e)
         # translator validation: run the same MIR concretely and compare with exact rational rounding
-        for wv in [1, 2 ** 53 + 1, 2 ** 63, 10 ** 19 - 1] + [rnd.randrange(1, 10 ** 19) for _ in range(4)] + [rnd.randrange(1, 10 ** rnd.randrange(1, 19)) for _ in range(2)]:
+        samples = ([1, 2 ** 53 + 1, 2 ** 63, 10 ** 19 - 1] + [rnd.randrange(1, 10 ** 19) for _ in range(4)] + [rnd.randrange(1, 10 ** rnd.randrange(1, 19)) for _ in range(2)]
+                   if pin_k is None else [wlo, whi, rnd.randrange(wlo, whi + 1)])
+        for wv in samples:
             ipc = Interp(fns, consts, statics, interpret + (LEMIRE if use_lemire else []))
             ipc.impl_consts = f64c
             try:
